@@ -233,6 +233,42 @@ fn container_check<K: Kmer>(c: &CCase) -> CheckResult {
         return Err("slice.rc().to_owned() differs from DnaString::rc()".into());
     }
     check_container::<K, _>("DnaStringSlice.rc()", &slrc, &r, c.bexts)?;
+    // a view equals its own reverse complement exactly when the denoted sequence does
+    if (sl == slrc) != (*m == r) || (slrc == sl) != (*m == r) {
+        return Err(format!(
+            "view == view.rc() is {} but the sequence {} its reverse complement",
+            sl == slrc,
+            if *m == r { "equals" } else { "differs from" }
+        ));
+    }
+    {
+        // a window that reads the same on both strands: S + rc(S) inside a longer string
+        let half = &m[..n / 2];
+        let mut pal: Seq = half.to_vec();
+        pal.extend(rc(half));
+        let mut b2: Seq = (0..lf).map(|i| ((i * 3 + 2) % 4) as u8).collect();
+        b2.extend_from_slice(&pal);
+        b2.extend_from_slice(&[1, 3, 0]);
+        let d2 = DnaString::from_bytes(&b2);
+        let w = d2.slice(lf, lf + pal.len());
+        if !(w == w.rc()) || w.rc().bytes() != pal {
+            return Err(format!("a window spelling the self-reverse-complement sequence {} is not == to its rc() view", to_ascii(&pal)));
+        }
+    }
+    // slicing a reverse-complemented view (window not at the end of the backing string)
+    if n > 0 {
+        let a = (c.lflank as usize * 7) % (n + 1);
+        let b = a + (c.rflank as usize * 5) % (n - a + 1);
+        let sub = slrc.slice(a, b);
+        if sub.bytes() != r[a..b] {
+            return Err(format!("view.rc().slice({}, {}) reads {} want {}", a, b, to_ascii(&sub.bytes()), to_ascii(&r[a..b])));
+        }
+        check_container::<K, _>("DnaStringSlice.rc().slice", &sub, &r[a..b], c.bexts)?;
+        let subrc = sub.rc();
+        if subrc.bytes() != rc(&r[a..b]) {
+            return Err("view.rc().slice(a, b).rc() is not the reverse complement of the sub-view".into());
+        }
+    }
     // Lmer of every capacity that fits
     macro_rules! lm {
         ($w:expr) => {
